@@ -320,6 +320,8 @@ fn main() {
                     o.insert_code = true;
                 } else if let Some(d) = a.strip_prefix("-D") {
                     o.defines.push(d.to_string());
+                } else if let Some(d) = a.strip_prefix("-I") {
+                    o.include_dirs.push(d.to_string());
                 }
             }
             let out = compile_src(&src, &o);
